@@ -11,7 +11,7 @@ EXPLANATION = (
     "cycle of the pausing code's dispatch loop contains the command read; the command reader's retry loop reads a line "
     "per iteration; end of input maps to quit, which detaches the debugger. R4 is the panic ledger of these functions "
     "(see the PANIC engine; reported under this property when it concerns the stepping arms)."
-    ' R2 also: no None (no action yet) return of the dispatcher in front of the command read. R5: a loop that pulls from an iterator must observe its exhaustion (a next() result only compared with Some(x) is reported).'
+    ' R2 also: no None (no action yet) return of the dispatcher in front of the command read. R5: a loop that pulls from an iterator must observe its exhaustion (a next() result only compared with Some(x) is reported), and the None edge of a pull - next(), or a call of a source closure - must not lead back to the loop head through blocks that call nothing and assign no named variable.'
 )
 NOT_DECIDED = "termination of the debugged program itself; the constant in 'bounded by a constant times ...'"
 
@@ -258,7 +258,69 @@ def run(ctx):
                 ctx.violation("loop-ignores-exhaustion|%s" % short(n), sp_file_line(only_eq[0].get("sp")),
                               "a loop in `%s` only compares `next()` with a particular value and never looks at whether the iterator is exhausted: once it has run "
                               "dry `None != Some(..)` holds forever and the loop spins (an unterminated escape sequence in echoed text hangs the session)" % short(n))
-    ctx.note("%d iterator pulls inside loops examined in %d functions" % (nloops5, len(scope5)))
+    # ... and a pull that comes back empty must not lead straight back to the loop head: when the `None` edge of a pull (an iterator's next(),
+    # or a call of a byte/char source closure) reaches the head of its loop through blocks that call nothing and assign no named variable,
+    # the next round repeats the same pull in the same state - at end of input the reader spins instead of reporting it
+    npull = 0
+    for n in sorted(scope5 | {x for x in prog.fns if prog.fns[x].bkind == "fn" and x.startswith("lace::debugger::command::reader::")}):
+        f = prog.fns[n]
+        lps5 = kit.loops(f)
+        if not lps5:
+            continue
+        succ5 = f.succ_map()
+        for b, t, c in f.calls():
+            if not c or t.get("t") is None:
+                continue
+            pull = (c.endswith("::next") and "terator" in c) or re.search(r"ops::function::Fn(Mut|Once)?(<.*>)?>?::call(_mut|_once)?$", c)
+            if not pull:
+                continue
+            inl = [(h, body) for h, (body, l) in lps5.items() if b in body]
+            if not inl:
+                continue
+            h, body = min(inl, key=lambda x: len(x[1]))
+            sw = f.term(t["t"])
+            if sw["k"] != "switch":
+                continue
+            sd = kit.switch_on_discr_of_local(f, t["t"])
+            if not sd or sd[1] != "core::option::Option" or sd[0].get("l") != t["dest"].get("l"):
+                continue
+            tg = {v: x for v, x in sw["targets"]}
+            none_t = tg.get(0, sw["otherwise"] if 1 in tg else None)
+            if none_t is None:
+                continue
+            npull += 1
+            ctx.instance(1)
+
+            def quiet(bb):
+                tt = f.term(bb)
+                if tt["k"] not in ("goto", "switch"):
+                    return False
+                for s_ in f.stmts(bb):
+                    if s_["k"] != "assign":
+                        continue
+                    if s_["p"].get("pr") or f.locals[s_["p"]["l"]].get("name"):
+                        return False
+                return True
+            seen, work, spin = set(), [none_t], False
+            while work:
+                x = work.pop()
+                if x in seen or x not in body:
+                    continue
+                if x == h:
+                    spin = True
+                    break
+                seen.add(x)
+                if not quiet(x):
+                    continue
+                work.extend(succ5[x])
+            if none_t == h:
+                spin = True
+            ctx.oblig(not spin, {"pull in loop of": short(n), "at": sp_file_line(t.get("sp"))}, "the empty answer leaves the loop or changes state before the next round")
+            if spin:
+                ctx.violation("pull-none-spins|%s" % short(n), sp_file_line(t.get("sp")),
+                              "in `%s` the empty answer of `%s` leads straight back to the head of the loop with nothing changed: once the input has run dry the "
+                              "same pull is repeated forever (the debugger hangs instead of reaching end of input)" % (short(n), short(c)))
+    ctx.note("%d iterator pulls inside loops examined in %d functions; %d pulls with an Option answer checked for a spinning None edge" % (nloops5, len(scope5), npull))
     ctx.finish_rule()
 
     # the decrement of the `step into` counter: C10.R4 evaluates the stepper's transition for every counter value and shows that no
